@@ -148,6 +148,9 @@ func checkC10(c c10Case) (ci caseInfo, err error) {
 			before[v] = true
 		}
 		next, matched := model.RefExpand(ref, refFill)
+		if c.Variant%2 == 1 {
+			touchItem(lib)
+		}
 		var res ast.ItemNode
 		if p, msg := try(func() { res = lib.FillVariables(libFill) }); p {
 			return ci, fmt.Errorf("round %d: FillVariables(%v) panicked: %s\ntemplate: %s", r+1, libFill, msg, clipStr(itemString(lib), 400))
